@@ -34,7 +34,13 @@ def generate(rnd, tier):
         k = rnd.randint(1, 4); w = rnd.randint(8, 100); n = rnd.choice([3, 9, 10, 11, 12, 20, 25, 100, 101])
         cw = int((w - (k - 1) * 3) / k)
         items = [["text", rnd.choice(["x" * max(1, cw - rnd.choice([3, 4, 5])), "word " * rnd.randint(1, 12), "y" * rnd.randint(1, 2 * max(1, cw))])] for _ in range(n)]
-        cases.append(pure_cc({"op": "tree", "tree": ["list", rnd.random() < 0.5, k, None, 3, ["", ") ", rnd.choice([1, 1, 0, 95])], items], "ops": [["render", w]]}))
+        kp = ["", ") ", rnd.choice([1, 1, 0, 95])]
+        if rnd.random() < 0.3:
+            # no numbering; the application shows one and the same widget object in several cells (e.g. an "n/a" text)
+            kp = None; j = rnd.randrange(len(items)); items[j] = ["text", rnd.choice(["n/a", "-", "none yet"])]
+            for i in rnd.sample(range(len(items)), min(len(items), rnd.randint(1, 4))):
+                if i > j: items[i] = ["ref", j]
+        cases.append(pure_cc({"op": "tree", "tree": ["list", rnd.random() < 0.5, k, None, 3, kp, items], "ops": [["render", w]]}))
     return cases
 
 
@@ -46,13 +52,16 @@ def run_impl(case):
 
 
 def model_case(case):
-    if case["op"] == "tree": return {k: v for k, v in case.items() if not k.startswith("_")}
+    if case["op"] == "tree":
+        from harness.props.common import model_case as pure_model_case
+        return pure_model_case(case)
     return _s_model_case(case)
 
 
 def compare(case, impl, model):
     if case["op"] == "tree":
-        return None if impl == model else "implementation %r / model %r" % (impl[0].get("lines", impl)[:3] if isinstance(impl[0], dict) else impl, model[0].get("lines", model)[:3] if isinstance(model[0], dict) else model)
+        from harness.props.common import tree_compare
+        return tree_compare(case, impl, model)
     return _s_compare(case, impl, model)
 
 
